@@ -25,8 +25,8 @@ def replay(rec):
             return list(syms), out
         xs, xv = blocks(getattr(b, 'xsyms', []), b.x, pt['x'], rec['decl'].get('xblocks') or [])
         ps, pv = blocks(getattr(b, 'psyms', []), b.p, pt['p'], rec['decl'].get('pblocks') or [])
-        syms = xs + b.u + ps + b.v + [b.ocp.t]
-        vals = xv + [fl(v) for v in pt['u']] + pv + [fl(v) for v in pt['v']] + [fl(pt['t'])]
+        syms = xs + b.u + ps + b.v + [b.ocp.t] + list(b.xq)
+        vals = xv + [fl(v) for v in pt['u']] + pv + [fl(v) for v in pt['v']] + [fl(pt['t'])] + [fl(v) for v in pt['q']][:len(b.xq)]
         f = ca.Function('d', syms, [d, e])
         dv, ev = f(*vals)
         res = []
